@@ -2337,10 +2337,12 @@ impl Timestamp {
     ) -> Result<Timestamp, Error> {
         let (second, nanosecond) =
             rangeint::uncomposite!(its, c => (c.second, c.nanosecond));
-        Ok(Timestamp {
-            second: second.try_to_rint("unix-seconds")?,
-            nanosecond: nanosecond.to_rint(),
-        })
+        // Use `new_ranged` so that an instant just below `Timestamp::MIN`
+        // (the minimum second with a negative fractional part) is rejected.
+        Timestamp::new_ranged(
+            second.try_to_rint("unix-seconds")?,
+            nanosecond.to_rint(),
+        )
     }
 
     #[inline]
